@@ -31,19 +31,20 @@ import (
 // JSON shapes (uniform with the model's act / Obs records)
 
 type wmAct struct {
-	Op   string `json:"op"`
-	Res  string `json:"res"`
-	A    int    `json:"a"`
-	I    int    `json:"i"`
-	B    int    `json:"b"`
-	K    int    `json:"k"`
-	J    int    `json:"j"`
-	E    int    `json:"e"`
-	N    int    `json:"n"`
-	Retr int    `json:"retr"`
-	Hard int    `json:"hard"`
-	Prog int    `json:"prog"`
-	G    int    `json:"g"`
+	Op    string `json:"op"`
+	Res   string `json:"res"`
+	A     int    `json:"a"`
+	I     int    `json:"i"`
+	B     int    `json:"b"`
+	K     int    `json:"k"`
+	J     int    `json:"j"`
+	E     int    `json:"e"`
+	N     int    `json:"n"`
+	Retr  int    `json:"retr"`
+	Nomax int    `json:"nomax"`
+	Hard  int    `json:"hard"`
+	Prog  int    `json:"prog"`
+	G     int    `json:"g"`
 }
 
 type wmObs struct {
@@ -590,8 +591,9 @@ func (e *wmEnv) actOf(ev wmEvent, want wmAct) wmAct {
 		a.Op = "Query"
 		a.B, a.N = int(ev.x)+1, int(ev.y)
 		a.Retr = int(ev.z & 0xff)
+		a.Nomax = 0
 		if ev.z&(1<<8) != 0 {
-			a.Retr = 0
+			a.Nomax = 1
 		}
 		a.Hard, a.Prog = want.Hard, want.Prog
 		if ev.z&(1<<10) == 0 {
@@ -704,10 +706,9 @@ func (e *wmEnv) exec(p *wmPathIn, idx int) (out wmStepOut, cont bool) {
 			e.reqOf[r] = wmReqKey{bi, k + 1}
 		}
 		opts := []QueryOption{Cancel(b.cancel)}
-		if want.Retr == 0 {
+		opts = append(opts, NumRetries(uint8(want.Retr)))
+		if want.Nomax == 1 {
 			opts = append(opts, NoRetryMax())
-		} else {
-			opts = append(opts, NumRetries(uint8(want.Retr)))
 		}
 		b.hardT = time.Hour
 		if want.Hard == 1 {
